@@ -187,6 +187,11 @@ def judge(ctx, idx, case):
             doc.serialize(b, format="provn")
             if s1 != text or b.getvalue().decode("utf-8") != text:
                 problems.append("serialize(format='provn') differs from get_provn()")
+            if idx % 3 == 0:
+                t2, enc = common.text_file_roundtrip(doc, "provn")
+                ctx.count("text_file_destination.%s" % enc)
+                if t2 != text:
+                    problems.append("serialize(format='provn') to a text file opened with the %s codec holds another text than get_provn()" % enc)
         except Exception as e:
             problems.append("serialize(format='provn') raised %s" % type(e).__name__)
     if not problems and scope_problems(notes):
